@@ -1515,3 +1515,27 @@ def m_fn_call(I, c, args, fr):
     tup = args[1]
     a = list(tup.items) if isinstance(tup, Tup) else ([] if tup == () else [tup])
     return I.call_value(f, a, fr)
+
+@model('str::replace', 'str::replacen')
+def m_str_replace(I, c, args, fr):
+    items = as_items(args[0])
+    pv = deref(args[1])
+    to = as_items(args[2])
+    out = []
+    if isinstance(pv, SliceRef):
+        p = pv.items()
+        if not p:
+            raise Unsupported('replace of the empty pattern')
+        i = 0
+        while i < len(items):
+            if i + len(p) <= len(items) and I.ctx.decide(seq_eq(items[i:i+len(p)], p)):
+                out.extend(to); i += len(p)
+            else:
+                out.append(items[i]); i += 1
+        return StrBuf(out)
+    for x in items:
+        if I.ctx.decide(int_eq(char_of_nofork(x), pv)):
+            out.extend(to)
+        else:
+            out.append(x)
+    return StrBuf(out)
